@@ -60,7 +60,7 @@ func ByID(id string) *check.Property {
 	}
 	p := f()
 	ops := append([]mutOp{}, thoroughOps[id]...)
-	ops = append(ops, mutSwapStmts, mutDeleteStmt, mutNegateCond)
+	ops = append(ops, mutSwapStmts, mutDeleteStmt, mutNegateCond, mutWeakenCond)
 	p.Thorough = sweep(p, ops)
 	return p
 }
